@@ -148,7 +148,8 @@ Inductive result :=
 
 (** ** Operations and labels *)
 Inductive op :=
-| OpApply (num : nat) (bad noncoro : bool) (w : wspec) (ecb ccb : cbspec) (g : option gname)
+| OpApply (num : nat) (bad : list bool) (noncoro : bool) (w : wspec) (ecb ccb : cbspec)
+          (g : option gname)   (* invocation i raises at call time iff [nth i bad false] *)
 | OpMap (stars : nat) (els : list elem) (nc : nat) (noncoro : bool) (ecb ccb : cbspec)
         (g : option gname)
 | OpStart (num : nat)
@@ -189,8 +190,9 @@ Inductive event :=
 Record config := {
   cf_size : ninf;
   cf_kind : pkind;
-  (* SimpleTaskPool: fixed function behaviour *)
-  cf_bad : bool;
+  (* SimpleTaskPool: fixed function behaviour; the call fails at invocation index i of EACH
+     start() request iff [nth i cf_bad false] *)
+  cf_bad : list bool;
   cf_w : wspec;
   cf_ecb : cbspec;
   cf_ccb : cbspec
